@@ -68,8 +68,14 @@ def gen_seq(rng, tier):
                 ops.append("c issue %d" % leader)
             elif r < 0.85:
                 leader = rng.randrange(n)
-            elif r < 0.95:
+            elif r < 0.89:
                 ops.append("c restart %d" % rng.randrange(n))
+            elif r < 0.93:
+                # the node compacts (often the leader, in the middle of its block of ids) ...
+                ops.append("c snap %d" % (leader if rng.random() < 0.6 else rng.randrange(n)))
+            elif r < 0.97:
+                # ... and later restarts from that snapshot plus the log since
+                ops.append("c restartsaved %d" % (leader if rng.random() < 0.6 else rng.randrange(n)))
             else:
                 ops.append("c ends")
         ops.append("c ends")
@@ -89,12 +95,23 @@ def gen_seq(rng, tier):
                 ops += ["r issue %d %s new" % (leader, rng.choice(["a", "b"]))] * rng.choice([99, 100, 101])
             elif r < 0.8:
                 leader = rng.randrange(n)
-            elif r < 0.95:
+            elif r < 0.88:
                 ops.append("r restart %d %s" % (rng.randrange(n), rng.choice(["snap", "replay"])))
+            elif r < 0.93:
+                ops.append("r snap %d" % (leader if rng.random() < 0.6 else rng.randrange(n)))
+            elif r < 0.97:
+                ops.append("r restartsaved %d" % (leader if rng.random() < 0.6 else rng.randrange(n)))
             else:
                 ops.append("r ends")
         ops.append("r ends")
         cases.append(Case("actors-%d" % i, ops, True, "random"))
+    # directed: compaction in the middle of a block on the node that draws, more draws, restart from it, draw again
+    for fam in ("c", "r"):
+        for extra in (1, 2, 99):
+            new = "c new 2 0 100" if fam == "c" else "r new 2"
+            iss = (lambda i: "c issue %d" % i) if fam == "c" else (lambda i: "r issue %d a new" % i)
+            ops = [new, iss(0), iss(0), "%s snap 0" % fam] + [iss(0)] * extra + ["%s restartsaved 0" % fam, iss(0), iss(1), "%s ends" % fam]
+            cases.append(Case("midblock-%s-%d" % (fam, extra), ops, True, "boundary"))
     return cases
 
 
